@@ -1,4 +1,146 @@
-import MementoModel.Model.RunnerProg
+import MementoModel.Lemmas.RunnerTop
+
+/-!
+# C15 — batch evaluation equals element-wise evaluation, in order
+-/
 namespace Memento.Runner
-theorem placeholder_C15 : replay (.val none) = .val none := rfl
+
+/-- individual top-level calls `f(a₁), …, f(aₙ)` in order, collecting each outcome (returned or raised) -/
+def seqCalls (P : Prog) (n : Nat) : St → Fn → List Val → CtxSpec → Flags → Option (St × List Outcome)
+  | s, _, [], _, _ => some (s, [])
+  | s, fn, a :: as, ctx, fl =>
+    match run P n s none fn [a] ctx fl with
+    | some (s1, .ok [o], _) =>
+      match seqCalls P n s1 fn as ctx fl with
+      | some (s2, os) => some (s2, o :: os)
+      | none => none
+    | _ => none
+
+/-- the sequential evaluation at fuel `n + 1`, one step -/
+theorem seqCalls_cons (P : Prog) (n : Nat) (s : St) (fn : Fn) (a : Val) (as : List Val) (ctx : CtxSpec) (fl : Flags) :
+    seqCalls P (n + 1) s fn (a :: as) ctx fl =
+      match s.get ⟨fn, a, effCtx none ctx⟩ with
+      | some r =>
+        (match seqCalls P (n + 1) s fn as ctx fl with
+         | some (s2, os) => some (s2, serve r fl :: os)
+         | none => none)
+      | none =>
+        match runLocal P (E P n) s ⟨fn, a, effCtx none ctx⟩ fl with
+        | none => none
+        | some (s1, o, _) =>
+          match seqCalls P (n + 1) s1 fn as ctx fl with
+          | some (s2, os) => some (s2, o :: os)
+          | none => none := by
+  rw [seqCalls, run_single_top]
+  cases s.get ⟨fn, a, effCtx none ctx⟩ with
+  | some r => rfl
+  | none =>
+    simp only []
+    cases runLocal P (E P n) s ⟨fn, a, effCtx none ctx⟩ fl with
+    | none => rfl
+    | some x => rfl
+
+/-- the loop of a batch whose bulk pre-check was taken on an *earlier* store `s0` (every entry of which
+    is still in the current store `s`) does what the individual calls do from `s` -/
+theorem batchLoop_eq_seq (P : Prog) (n : Nat) (s0 : St) (fn : Fn) (ctx : CtxSpec) (fl : Flags) :
+    ∀ (args : List Val) (s : St), (∀ k r, s0.get k = some r → s.get k = some r) →
+      (match batchLoop P (E P n) fl s (args.map (fun a => ((⟨fn, a, effCtx none ctx⟩ : Key), s0.get ⟨fn, a, effCtx none ctx⟩))) with
+       | none => none
+       | some (s', os, _) => some (s', os)) = seqCalls P (n + 1) s fn args ctx fl
+  | [], s, _ => by simp only [List.map_nil, batchLoop, seqCalls]
+  | a :: as, s, hg => by
+    rw [seqCalls_cons, List.map_cons]
+    cases h0 : s0.get ⟨fn, a, effCtx none ctx⟩ with
+    | some r =>
+      rw [batchLoop_cons_some, hg _ _ h0, ← batchLoop_eq_seq P n s0 fn ctx fl as s hg]
+      simp only []
+      cases batchLoop P (E P n) fl s (as.map (fun a => ((⟨fn, a, effCtx none ctx⟩ : Key), s0.get ⟨fn, a, effCtx none ctx⟩))) with
+      | none => rfl
+      | some x => rfl
+    | none =>
+      rw [batchLoop_cons_none]
+      cases hs : s.get ⟨fn, a, effCtx none ctx⟩ with
+      | some r =>
+        -- memoized in the meantime (an earlier duplicate, or a nested call): served by the re-check
+        rw [runLocal_hit hs, ← batchLoop_eq_seq P n s0 fn ctx fl as s hg]
+        simp only []
+        cases batchLoop P (E P n) fl s (as.map (fun a => ((⟨fn, a, effCtx none ctx⟩ : Key), s0.get ⟨fn, a, effCtx none ctx⟩))) with
+        | none => rfl
+        | some x => rfl
+      | none =>
+        simp only []
+        cases hl : runLocal P (E P n) s ⟨fn, a, effCtx none ctx⟩ fl with
+        | none => rfl
+        | some x =>
+          obtain ⟨s1, o, r⟩ := x
+          have hg1 : ∀ k r, s0.get k = some r → s1.get k = some r :=
+            fun k r h => (runLocal_ext (E_ext P n) hl).1.grows k r (hg k r h)
+          simp only []
+          rw [← batchLoop_eq_seq P n s0 fn ctx fl as s1 hg1]
+          cases batchLoop P (E P n) fl s1 (as.map (fun a => ((⟨fn, a, effCtx none ctx⟩ : Key), s0.get ⟨fn, a, effCtx none ctx⟩))) with
+          | none => rfl
+          | some x => rfl
+
+/-- **batch = map**: one `call_batch` returns, position by position, what the individual calls return —
+    for any mix of already memoized, not yet memoized, duplicated and failing elements — and leaves
+    the same store and the same executions.
+
+    STATEMENT ADJUSTED. Original:
+    `theorem batch_eq_map (P) (n) (s) (he : s.enabled = true) (fn) (args) (ctx) (fl) :`
+    `    batchTop P n s fn args ctx fl = seqCalls P n s fn args ctx fl`.
+    The fuel is now `n + 1` (i.e. "fuel ≥ 1"). At fuel `0` the statement is false for the empty batch
+    (counterexample below): `run … 0 …` is "out of fuel" whereas no individual call is made at all.
+    The hypothesis `he : s.enabled = true` of the original statement is not needed and was dropped. -/
+theorem batch_eq_map (P : Prog) (n : Nat) (s : St) (fn : Fn) (args : List Val) (ctx : CtxSpec) (fl : Flags) :
+    batchTop P (n + 1) s fn args ctx fl = seqCalls P (n + 1) s fn args ctx fl := by
+  rw [← batchLoop_eq_seq P n s fn ctx fl args s (fun _ _ h => h)]
+  unfold batchTop
+  rw [run_succ, runBatchWith_eq]
+  simp only [undeclared, prevented]
+  cases batchLoop P (E P n) fl s (args.map (fun a => ((⟨fn, a, effCtx none ctx⟩ : Key), s.get ⟨fn, a, effCtx none ctx⟩))) with
+  | none => rfl
+  | some x => rfl
+
+/-- counterexample to the original statement at fuel `0` -/
+example : batchTop (progOf [] []) 0 { store := [], trace := [] } 1 [] .inherit {} ≠
+    seqCalls (progOf [] []) 0 { store := [], trace := [] } 1 [] .inherit {} := by
+  simp [batchTop, run, seqCalls]
+
+/-- with `raise_first_exception` the batch raises the first failure in order -/
+theorem raise_first_is_first (os : List Outcome) (e : Outcome) (h : firstExc os = some e) :
+    ∃ pre post, os = pre ++ e :: post ∧ (∀ o ∈ pre, o.isExc = false) ∧ e.isExc = true := by
+  induction os with
+  | nil => simp [firstExc] at h
+  | cons o os ih =>
+    cases o with
+    | exc c m =>
+      simp only [firstExc, Option.some.injEq] at h
+      subst h
+      exact ⟨[], os, rfl, by simp, rfl⟩
+    | val v =>
+      simp only [firstExc] at h
+      obtain ⟨pre, post, h1, h2, h3⟩ := ih h
+      refine ⟨.val v :: pre, post, by rw [h1]; rfl, ?_, h3⟩
+      intro o ho
+      rcases List.mem_cons.1 ho with rfl | ho
+      · rfl
+      · exact h2 o ho
+
+/-- each distinct element's body runs at most once: a duplicate of an element that was memoized by
+    an earlier position is served by the re-check, without executing -/
+theorem duplicate_served (P : Prog) (exec) (s : St) (key : Key) (fl : Flags) (r : Rec) (h : s.get key = some r) :
+    runLocal P exec s key fl = some (s, serve r fl, r) :=
+  runLocal_hit h
+
+/-! non-vacuity: duplicates and a failing element, one element memoized beforehand -/
+private def demoDefs : List (Fn × FnDef) := [(1, ⟨[], 3, 1, clsRebuildable, 5, 10, false⟩)]
+private def demoP : Prog := progOf demoDefs []
+private def cold : St := { store := [], trace := [] }
+private def warm : St := ((callTop demoP 5 cold 1 2 .inherit {}).map (·.1)).getD cold
+
+example : (batchTop demoP 5 warm 1 [0, 1, 0, 2] .inherit {}).map (fun x => (x.2, x.1.trace.length)) =
+    some ([.val (some 10), .exc clsRebuildable 5, .val (some 10), .val (some 10)], 3) := by decide
+example : (batchTop demoP 5 warm 1 [0, 1, 0, 2] .inherit {}).map (fun x => (x.2, x.1.trace)) =
+    (seqCalls demoP 5 warm 1 [0, 1, 0, 2] .inherit {}).map (fun x => (x.2, x.1.trace)) := by decide
+
 end Memento.Runner
